@@ -70,11 +70,21 @@ CLAIMS = {
   "note": "NOT decided: which documents each scorer enumerates (values) — the bulk of the property.",
   "technique": "Option-arm region analysis over MIR, closure inspection, impl-map enumeration of overrides, sibling callee-set comparison",
  },
+ "C04": {
+  "text": "Narrow: decides the merge protocol. In segment_updater::merge every source entry is advanced to the target opstamp (argument = the parameter, inside the loop, error checked) and IndexMerger::open runs only after that loop, on segments built from the advanced metas; in the end_merge task deletes that arrived during the merge are applied up to load_meta().opstamp, a failed reconciliation or a refused swap returns before anything is published, SegmentManager::end_merge swaps on one register under one write guard, and a committed merge republishes the unchanged opstamp and payload; one doc-id mapping feeds all four merge writers; merge runs only under catch_unwind.",
+  "note": "NOT decided: that merged postings / columns / store equal the sources' live content (values; would need translation validation).",
+  "technique": "parameter-to-argument provenance, loop/dominance rules, guard-region analysis, value back-trace over MIR",
+ },
+ "C17": {
+  "text": "Narrow: decides remap completeness. In remap_and_write the doc_id_map parameter itself (not None, not another value) is the argument of FieldNormsWriter::serialize, serialize_postings and FastFieldsWriter::serialize and drives the store rewrite; finalize_inner gives its mapping to remap_and_write and remap_doc_opstamps after padding fieldnorms; IndexMerger::write feeds one mapping to its four writers; SegmentSerializer::for_segment opens TempStore vs Store on the exclusive arms of a test over sort_by_field, manual_doc_id_mapping and is_in_merge.",
+  "note": "NOT decided: the sort order itself, null placement, disjunctness tests (values).",
+  "technique": "parameter-to-argument provenance (root of operand after copies/refs/Option re-wraps), control-region operand analysis",
+ },
 }
 NA = {
  "C13": "quantifies over values returned by arbitrary advance/seek programs on stateful iterators; failures are arithmetic; the only structural statement (wrapper forwarding) is not a necessary condition, so no sound static rule is in reach",
  "C14": "aggregation results are run-time numeric values (bucket arithmetic, float sums, sketches); structural parts are already enforced by derive and the compiler",
 }
 # properties not yet claimed (checks under construction) are listed as not applicable *for now*
-for _p, _why in {'C02': 'check under construction in this session (rules designed in DESIGN.md section 4; not yet registered)', 'C04': 'check under construction in this session (rules designed in DESIGN.md section 4; not yet registered)', 'C12': 'check under construction in this session (rules designed in DESIGN.md section 4; not yet registered)', 'C17': 'check under construction in this session (rules designed in DESIGN.md section 4; not yet registered)', }.items():
+for _p, _why in {'C02': 'check under construction in this session (rules designed in DESIGN.md section 4; not yet registered)', 'C12': 'check under construction in this session (rules designed in DESIGN.md section 4; not yet registered)', }.items():
     NA[_p] = _why
